@@ -545,8 +545,33 @@ func oracleC13(e *Env, i int, op *Op, obs string) *Violation {
 		case "oci":
 			h, err := d.OCIBlobDigest()
 			return err == nil && h.String() == string(s.B)
+		case "P":
+			for _, x := range s.M {
+				if x == d.ID() {
+					return true
+				}
+			}
+			return (s.MT != 0 && int64(d.DataType()) == s.MT) || (s.MG != 0 && d.GroupID() == s.MG)
 		}
 		return false
+	}
+	// a caller's selector function that answers with an error of its own on some live object: what
+	// the query then returns is not something C13 settles (the correspondence with the model
+	// covers it); the oracle speaks only about functions that are quiet on this image
+	for _, s := range op.Sels {
+		if s.Kind != "P" {
+			continue
+		}
+		for _, d := range all {
+			if s.ET != 0 && int64(d.DataType()) == s.ET {
+				return nil
+			}
+			for _, x := range s.E {
+				if x == d.ID() {
+					return nil
+				}
+			}
+		}
 	}
 	zero := ""
 	zeroAt := -1
